@@ -162,7 +162,11 @@ func c02InsertShaped(capPath string, n, lineLen int) (viols []seamViol, err erro
 			payload[i] = '\n'
 		}
 	}
-	ts, err := newTermSessionOpts(capPath, true, payload, false)
+	/* What the source holds when the key is pressed (the program is handed
+	the source's own slice: it has no business writing into it). */
+	given := payload
+	payload = append([]byte{}, given...)
+	ts, err := newTermSessionOpts(capPath, true, given, false)
 	if nil != err {
 		return nil, err
 	}
